@@ -142,7 +142,7 @@ func CmdCheck(args []string) int {
 	}
 	mirrorNote := checkMirror(*repo, *verif)
 	smoke := *tier == "thorough"
-	timeout := 10
+	timeout := 30
 	if claim.TimeoutS > 0 {
 		timeout = claim.TimeoutS
 	}
